@@ -23,6 +23,7 @@ Variables P R T : Type.
 Variable blank : P.                        (* createScalarNode(nil, empty): the null scalar *)
 Variable absorb : list litem -> P -> P.    (* yaml.v3 reading leading lines itself (no pre-processing): they end up inside the first document *)
 Variable pfail : res R -> bool.
+Variable parentless : res R -> bool.       (* the result node has no Parent: it was cut loose from the document *)
 
 Record file := mkFile { f_name : str; f_lead : list litem; f_bodies : list P; f_bad : bool }.
 
@@ -63,6 +64,14 @@ Definition null_sdoc : sdoc := mkSdoc 0 0 [] false [] blank.
 (* stream evaluator                                                    *)
 (* ------------------------------------------------------------------ *)
 
+(* streamEvaluator.Evaluate stamps results without Parent with the position of
+   the document being processed (repair in /repo; before it they reported
+   document 0 of file 0).  A node made during evaluation without Parent has
+   zero document / file index, so EvaluateNew (null document at 0 / 0) is
+   modelled with the same stamping. *)
+Definition stamp (fi cur : N) (r : res R) : res R :=
+  if parentless r then mkRes cur fi (r_lead r) (r_val r) else r.
+
 (* events of one PrintResults call, tagged with the document the driver was processing *)
 Record block := mkBlock { b_doc : sdoc; b_events : list (event R) }.
 
@@ -70,7 +79,7 @@ Definition flat (bs : list block) : list (event R) := flat_map b_events bs.
 
 (* the for loop of streamEvaluator.Evaluate: [fi] = s.fileIndex, [cur] = currentIndex.
    returns currentIndex, the printer state, the tree, the output, the status *)
-Fixpoint eval_docs (cfg : pcfg) (fixp : bool) (name : str) (fi cur : N) (ds : list doc) (ps : pstate) (t : T)
+Fixpoint eval_docs (cfg : pcfg) (name : str) (fi cur : N) (ds : list doc) (ps : pstate) (t : T)
   : N * pstate * T * list block * status :=
   match ds with
   | [] => (cur, ps, t, [], Done)
@@ -79,11 +88,11 @@ Fixpoint eval_docs (cfg : pcfg) (fixp : bool) (name : str) (fi cur : N) (ds : li
       match ev t [sd] with
       | (None, t1) => (cur, ps, t1, [], Failed)
       | (Some rs, t1) =>
-          let '(ps1, es, s) := print_results pfail cfg fixp ps rs in
+          let '(ps1, es, s) := print_results pfail cfg ps (List.map (stamp fi cur) rs) in
           match s with
           | Failed => (cur, ps1, t1, [mkBlock sd es], Failed)
           | Done =>
-              let '(n, ps2, t2, bs, s2) := eval_docs cfg fixp name fi (cur + 1) ds' ps1 t1 in
+              let '(n, ps2, t2, bs, s2) := eval_docs cfg name fi (cur + 1) ds' ps1 t1 in
               (n, ps2, t2, mkBlock sd es :: bs, s2)
           end
       end
@@ -93,8 +102,8 @@ Fixpoint eval_docs (cfg : pcfg) (fixp : bool) (name : str) (fi cur : N) (ds : li
 Record sstate := mkSs { file_index : N; pr : pstate; tree : T; total : N }.
 
 (* one iteration of the loop of EvaluateFiles (readStream, Evaluate) *)
-Definition eval_file (cfg : pcfg) (fixp : bool) (st : sstate) (fl : file) : sstate * list block * status :=
-  let '(n, ps, t, bs, s) := eval_docs cfg fixp (f_name fl) (file_index st) 0 (decode true fl) (pr st) (tree st) in
+Definition eval_file (cfg : pcfg) (st : sstate) (fl : file) : sstate * list block * status :=
+  let '(n, ps, t, bs, s) := eval_docs cfg (f_name fl) (file_index st) 0 (decode true fl) (pr st) (tree st) in
   match s with
   | Failed => (mkSs (file_index st) ps t (total st + n), bs, Failed)
   | Done =>
@@ -102,36 +111,36 @@ Definition eval_file (cfg : pcfg) (fixp : bool) (st : sstate) (fl : file) : ssta
       else (mkSs (file_index st + 1) ps t (total st + n), bs, Done)
   end.
 
-Fixpoint eval_files (cfg : pcfg) (fixp : bool) (st : sstate) (fs : list file) : sstate * list block * status :=
+Fixpoint eval_files (cfg : pcfg) (st : sstate) (fs : list file) : sstate * list block * status :=
   match fs with
   | [] => (st, [], Done)
   | fl :: fs' =>
-      let '(st1, bs1, s1) := eval_file cfg fixp st fl in
+      let '(st1, bs1, s1) := eval_file cfg st fl in
       match s1 with
       | Failed => (st1, bs1, Failed)
-      | Done => let '(st2, bs2, s2) := eval_files cfg fixp st1 fs' in (st2, bs1 ++ bs2, s2)
+      | Done => let '(st2, bs2, s2) := eval_files cfg st1 fs' in (st2, bs1 ++ bs2, s2)
       end
   end.
 
 (* EvaluateNew: parses the expression again, evaluates it on the null node *)
-Definition eval_new (cfg : pcfg) (fixp : bool) (ps : pstate) : list block * status :=
+Definition eval_new (cfg : pcfg) (ps : pstate) : list block * status :=
   match fst (ev t0 [null_sdoc]) with
   | None => ([], Failed)
-  | Some rs => let '(_, es, s) := print_results pfail cfg fixp ps rs in ([mkBlock null_sdoc es], s)
+  | Some rs => let '(_, es, s) := print_results pfail cfg ps (List.map (stamp 0 0) rs) in ([mkBlock null_sdoc es], s)
   end.
 
 (* streamEvaluator.EvaluateFiles with a new evaluator and a new printer *)
-Definition run_seq_blocks (cfg : pcfg) (fixp : bool) (fs : list file) : list block * status :=
-  let '(st, bs, s) := eval_files cfg fixp (mkSs 0 ps0 t0 0) fs in
+Definition run_seq_blocks (cfg : pcfg) (fs : list file) : list block * status :=
+  let '(st, bs, s) := eval_files cfg (mkSs 0 ps0 t0 0) fs in
   match s with
   | Failed => (bs, Failed)
   | Done =>
-      if total st =? 0 then let '(bs2, s2) := eval_new cfg fixp (pr st) in (bs ++ bs2, s2)
+      if total st =? 0 then let '(bs2, s2) := eval_new cfg (pr st) in (bs ++ bs2, s2)
       else (bs, Done)
   end.
 
-Definition run_seq (cfg : pcfg) (fixp : bool) (fs : list file) : list (event R) * status :=
-  let '(bs, s) := run_seq_blocks cfg fixp fs in (flat bs, s).
+Definition run_seq (cfg : pcfg) (fs : list file) : list (event R) * status :=
+  let '(bs, s) := run_seq_blocks cfg fs in (flat bs, s).
 
 (* ------------------------------------------------------------------ *)
 (* all-at-once evaluator                                               *)
@@ -156,14 +165,14 @@ Fixpoint read_all (firstf : bool) (fi : N) (fs : list file) : option (list sdoc)
            end
   end.
 
-Definition run_all (cfg : pcfg) (fixp : bool) (fs : list file) : list (event R) * status :=
+Definition run_all (cfg : pcfg) (fs : list file) : list (event R) * status :=
   match read_all true 0 fs with
   | None => ([], Failed)
   | Some ds =>
       let ds' := if is_nil ds then [null_sdoc] else ds in
       match fst (ev t0 ds') with
       | None => ([], Failed)
-      | Some rs => let '(_, es, s) := print_results pfail cfg fixp ps0 rs in (es, s)
+      | Some rs => let '(_, es, s) := print_results pfail cfg ps0 rs in (es, s)
       end
   end.
 
@@ -177,7 +186,7 @@ Arguments mkBlock {P R}. Arguments b_doc {P R}. Arguments b_events {P R}.
 Arguments flat {P R}.
 Arguments decode {P}. Arguments null_sdoc {P}.
 Arguments mkSs {T}. Arguments file_index {T}. Arguments pr {T}. Arguments tree {T}. Arguments total {T}.
-Arguments eval_docs {P R T}. Arguments eval_file {P R T}. Arguments eval_files {P R T}.
+Arguments stamp {R}. Arguments eval_docs {P R T}. Arguments eval_file {P R T}. Arguments eval_files {P R T}.
 Arguments eval_new {P R T}. Arguments run_seq_blocks {P R T}. Arguments run_seq {P R T}.
 Arguments stamp_together {P}. Arguments read_all {P}. Arguments run_all {P R T}.
 
